@@ -72,6 +72,16 @@ impl BigUint {
     }
 //@ end
 
+//@ extract src/biguint.rs :: impl Clone for BigUint :: fn clone_from rules=R0,R57 props=C04
+    fn clone_from(&mut self, other: &Self)
+//+{
+        ensures final(self).data@ == other.data@
+//+}
+    {
+        self.data.clone_from(&other.data);
+    }
+//@ end
+
 //@ extract src/biguint.rs :: impl Zero for BigUint :: fn zero props=C19
     fn zero() -> /*+*/(r: /*-*/BigUint/*+*/)/*-*/
 //+{
